@@ -8,10 +8,13 @@ open Rxn
 
 /-! ## decision rule -/
 
+theorem arrives_id (a : Ans) : arrives a = a := by
+  cases a <;> simp [arrives, Facts.c09OwnsNoDeadline, Facts.c09OwnsErrPassed]
+
 theorem mem_effective {t : Tbl} {nbrs : List (KGRange × Ans)} {ra : KGRange × Ans} (h : ra ∈ nbrs)
     (ho : Gen.kgOverlaps ra.1 t.span = true) : ra.2 ∈ effective t nbrs := by
   unfold effective
-  exact List.mem_map.mpr ⟨ra, h, by simp [ho]⟩
+  exact List.mem_map.mpr ⟨ra, h, by simp [ho, arrives_id]⟩
 
 theorem decision_ne_delete (own : KGRange) (t : Tbl) (nbrs : List (KGRange × Ans))
     (hnc : Gen.kgContains own t.span = false)
@@ -187,6 +190,13 @@ theorem step_inv1 {s s' : State} {x : Inst} {a : Act} (inv : Inv1 s x) (hsc : in
   | openFresh r g n => simp [inScope] at hsc
   | openFrom r g n w id => simp [inScope] at hsc
   | release i => simp [inScope] at hsc
+  | redeployFailed i =>
+    simp only [step] at hstep
+    split at hstep
+    · simp at hstep
+    · split at hstep
+      · injection hstep with hstep; subst hstep; exact ⟨x, inv⟩
+      · simp at hstep
   | flush i t =>
     cases i with
     | succ n => simp [step, hs] at hstep
@@ -643,6 +653,13 @@ theorem step_frame {s s' : State} {a : Act} {j : Nat} {x : Inst} (h : step s a =
     split at h
     · injection h with h; subst h; exact frame_same (fun _ hu => hu) hj
     · simp at h
+  | redeployFailed i =>
+    simp only [step] at h
+    split at h
+    · simp at h
+    · split at h
+      · injection h with h; subst h; exact frame_same (fun _ hu => hu) hj
+      · simp at h
   | flush i t =>
     simp only [step] at h
     split at h
